@@ -2,9 +2,9 @@
 
 from __future__ import annotations
 
-from functools import lru_cache
 from ipaddress import NetmaskValueError, IPv4Address, IPv4Network
 from itertools import product
+from typing import Optional
 
 from cisco_acl import helpers as h
 from cisco_acl.base import Base
@@ -14,6 +14,7 @@ PREFIX_LEN = 32  # IPv4 prefix length
 ALL_ONES = (2**PREFIX_LEN) - 1
 DEF_NCWB = 16  # Default count of non-contiguous wildcard bits
 MAX_NCWB = 30  # Maximum allowed count of non-contiguous wildcard bits
+OLIpNet = Optional[LIpNet]
 
 
 class Wildcard(Base):
@@ -41,6 +42,7 @@ class Wildcard(Base):
         self.ipnet: OIpNet = None  # IPv4Network of contiguous wildcard
         self._ncwb: LInt = []  # non-contiguous wildcard bits
         self._prefixlen: int = 0  # Prefix length of contiguous wildcard
+        self._ipnets: OLIpNet = None  # Memoized result of ipnets(), reset when line is set
         super().__init__(**kwargs)  # platform, note
         self.max_ncwb: int = init_max_ncwb(**kwargs)
         self.line = line
@@ -71,6 +73,7 @@ class Wildcard(Base):
     @line.setter
     def line(self, line: str) -> None:
         line = h.init_line(line)
+        self._ipnets = None
         prefix_o, wildmask_o = self._create_prefix(line)
         self._prefix = prefix_o
         self._wildmask = wildmask_o
@@ -180,7 +183,6 @@ class Wildcard(Base):
             data["uuid"] = self.uuid
         return data
 
-    @lru_cache
     def ipnets(self) -> LIpNet:
         """List of IPv4Network that match this wildcard.
 
@@ -190,6 +192,8 @@ class Wildcard(Base):
             wildcard.ipnets() -> [IPv4Network("10.0.0.0/30"),
                                   IPv4Network("10.0.1.0/30")]
         """
+        if self._ipnets is not None:
+            return self._ipnets
         ipnets: LIpNet = []
         prefix_i = int(self._prefix)
         repeat = len(self._ncwb)
@@ -203,6 +207,7 @@ class Wildcard(Base):
                     prefix_i_ &= ~mask
             ipnet = IPv4Network((prefix_i_, self._prefixlen))
             ipnets.append(ipnet)
+        self._ipnets = ipnets
         return ipnets
 
     # =========================== helper =============================
